@@ -1327,9 +1327,11 @@ func (t *TBtree) flushTree(cleanupPercentageHint float32, forceSync bool, forceC
 
 		// prevent discarding data referenced by opened snapshots
 		discardableNLogOffset := actualNewMinOffset
+		// (the offset recorded when the snapshot was taken: its root may be the current root, which the
+		// cleanup above rewrites in place, while readers still hold nodes loaded from the older offsets)
 		for _, snap := range t.snapshots {
-			if snap.root.minOffset() < discardableNLogOffset {
-				discardableNLogOffset = snap.root.minOffset()
+			if snap.minOff < discardableNLogOffset {
+				discardableNLogOffset = snap.minOff
 			}
 		}
 
@@ -2024,6 +2026,7 @@ func (t *TBtree) newSnapshot(snapshotID uint64, root node) *Snapshot {
 		id:      snapshotID,
 		ts:      root.ts() + 1,
 		root:    root,
+		minOff:  root.minOffset(),
 		readers: make(map[int]io.Closer),
 		_buf:    make([]byte, t.maxNodeSize),
 	}
